@@ -185,8 +185,13 @@ func refRow(trigs []Trig, ev string, old, nw [2]int64) ([]entry, [2]int64) {
 func gen(r *lib.RNG) caseT {
 	var c caseT
 	tag := int64(0)
+	// one case in three: any number of placement clauses per event and up to 6 triggers (cap(triggers) = 8 > len)
+	multi := r.Chance(1, 3)
 	for _, ev := range []string{"ins", "upd", "del"} {
 		n := r.Intn(5)
+		if multi {
+			n = r.Intn(7)
+		}
 		clauseUsed := false
 		var tags []int64
 		var times []string
@@ -203,7 +208,7 @@ func gen(r *lib.RNG) caseT {
 			if t.Time == "Before" && ev != "del" && r.Chance(1, 2) {
 				t.Set, t.C = lib.Pick(r, []string{"add", "mul"}), int64(r.Range(2, 3))
 			}
-			if !clauseUsed && r.Chance(1, 3) {
+			if (multi && r.Chance(1, 2)) || (!multi && !clauseUsed && r.Chance(1, 3)) {
 				// reference an earlier trigger of the same time and event
 				var cand []int64
 				for j, g := range tags {
@@ -276,6 +281,16 @@ func pattern(trigs []Trig, ev string) string {
 	return strings.Join(parts, ",")
 }
 
+func nClauses(trigs []Trig, ev string) int {
+	n := 0
+	for _, t := range trigs {
+		if t.Ev == ev && t.Clause != "" {
+			n++
+		}
+	}
+	return n
+}
+
 func run(c *lib.Ctx, cs caseT) {
 	e := eng.New("db")
 	s := e.Session()
@@ -324,8 +339,13 @@ func run(c *lib.Ctx, cs caseT) {
 		q := st.sql()
 		r := s.Query(q)
 		failed := r.Err != nil
+		multiCl := nClauses(cs.Trigs, st.K) >= 2
 		if r.Panic != "" {
-			fail("panic", q+" panicked: "+r.Panic)
+			sig := "panic/" + st.K
+			if multiCl {
+				sig = "panic/several-placement-clauses"
+			}
+			fail(sig, q+" panicked: "+r.Panic+" (triggers: "+st.K+"["+pattern(cs.Trigs, st.K)+"])")
 		} else if failed && eng.ErrKind(r.Err) != "dup-key" {
 			fail("unexpected-error/"+st.K, fmt.Sprintf("%s failed: %v", q, r.Err))
 		}
@@ -339,6 +359,12 @@ func run(c *lib.Ctx, cs caseT) {
 			log = append(log, entry{toI(row[0]), toI(row[1]), toI(row[2])})
 		}
 		nFired += len(log)
+		if r.Panic != "" {
+			events = append(events, fmt.Sprintf("EvP (%s) %s", st.coq(),
+				lib.CoqListOf(cur, func(r [2]int64) string { return fmt.Sprintf("R %s %s", coqZ(r[0]), coqZ(r[1])) })))
+			prev = cur
+			continue
+		}
 		events = append(events, fmt.Sprintf("Ev (%s) %s %s %s", st.coq(), lib.CoqBool(failed),
 			lib.CoqListOf(cur, func(r [2]int64) string { return fmt.Sprintf("R %s %s", coqZ(r[0]), coqZ(r[1])) }),
 			lib.CoqListOf(log, func(e entry) string { return fmt.Sprintf("E %s %s %s", coqZ(e[0]), coqZ(e[1]), coqZ(e[2])) })))
@@ -389,6 +415,11 @@ func run(c *lib.Ctx, cs caseT) {
 			}
 		}
 		pat := evName + "[" + pattern(cs.Trigs, evName) + "]"
+		patSig := pat
+		if multiCl {
+			// root cause: plan.OrderTriggers with two or more placement clauses among the triggers of one event
+			patSig = "several-placement-clauses"
+		}
 		eqT := func(a, b [][2]int64) bool {
 			if len(a) != len(b) {
 				return false
@@ -413,7 +444,7 @@ func run(c *lib.Ctx, cs caseT) {
 			}
 		default:
 			if !eqT(cur, want) {
-				fail("stored-rows-differ/"+pat, fmt.Sprintf("statement %d %s: t is %v, reference %v", si, q, cur, want))
+				fail("stored-rows-differ/"+patSig, fmt.Sprintf("statement %d %s: t is %v, reference %v", si, q, cur, want))
 			}
 			same := len(log) == len(wantLog)
 			for i := 0; same && i < len(log); i++ {
@@ -431,7 +462,7 @@ func run(c *lib.Ctx, cs caseT) {
 				if fmt.Sprint(a) == fmt.Sprint(b) {
 					kind = "trigger-order-differs"
 				}
-				fail(kind+"/"+pat, fmt.Sprintf("statement %d %s: audit rows %v, prescribed %v (triggers: %s)", si, q, log, wantLog, pat))
+				fail(kind+"/"+patSig, fmt.Sprintf("statement %d %s: audit rows %v, prescribed %v (triggers: %s)", si, q, log, wantLog, pat))
 			}
 		}
 		prev = cur
@@ -452,10 +483,7 @@ func run(c *lib.Ctx, cs caseT) {
 		key = fmt.Sprintf("%v|%v", cs.Trigs, cs.H)
 	}
 	var id int
-	if cs.NoModel {
-		c.Count("case-not-compared-with-model(multi-clause-order)")
-		id = c.CaseNoModel(cs, key)
-	} else {
+	{
 		term := fmt.Sprintf("Case %s %s %s %s", lib.CoqList(byEv["ins"]), lib.CoqList(byEv["upd"]), lib.CoqList(byEv["del"]), lib.CoqList(events))
 		id = c.Case(term, cs, key)
 	}
@@ -471,7 +499,7 @@ func run(c *lib.Ctx, cs caseT) {
 
 func main() {
 	lib.Main("C23", func(c *lib.Ctx) {
-		c.Header = "From Coq Require Import List ZArith.\nImport ListNotations.\nFrom GMS Require Import Store.C23Trigger Corr.C23.\nOpen Scope N_scope."
+		c.Header = "From Coq Require Import List ZArith.\nImport ListNotations.\nFrom GMS Require Import Store.C23Trigger Store.C23Rich Corr.C23.\nOpen Scope N_scope."
 		c.CaseType = "C23.case"
 		c.MismatchFn = "C23.mismatches"
 		c.SetRule("0-4 triggers per event (BEFORE/AFTER x INSERT/UPDATE/DELETE) on t (id INT PRIMARY KEY, v INT), bodies INSERT INTO audit (tag, OLD/NEW fields) " +
@@ -486,6 +514,18 @@ func main() {
 				runTyped(c, tc)
 				return
 			}
+			var sc scriptCase
+			lib.LoadReplay(c.ReplayFile, &sc)
+			if sc.Script {
+				runScript(c, sc)
+				return
+			}
+			var rc richCase
+			lib.LoadReplay(c.ReplayFile, &rc)
+			if rc.Rich {
+				runRich(c, rc)
+				return
+			}
 			var cs caseT
 			lib.LoadReplay(c.ReplayFile, &cs)
 			run(c, cs)
@@ -496,13 +536,18 @@ func main() {
 			{Trigs: []Trig{{Time: "Before", Ev: "ins", Tag: 1, X: "NewId", Y: "NewV", Set: "add", C: 10}, {Time: "After", Ev: "ins", Tag: 2, X: "NewId", Y: "NewV"}},
 				H: []Stmt{{K: "ins", Rows: [][2]int64{{1, 1}, {2, 2}}}, {K: "ins", Rows: [][2]int64{{3, 3}, {1, 5}}}}},
 			// known finding: two placement clauses for one event: tr6 FOLLOWS tr4 is lost once tr3 PRECEDES tr1 was processed
-			{NoModel: true, Trigs: []Trig{{Time: "After", Ev: "ins", Tag: 1, X: "NewId", Y: "NewV"}, {Time: "After", Ev: "ins", Tag: 2, X: "NewId", Y: "NewV"},
+			{Trigs: []Trig{{Time: "After", Ev: "ins", Tag: 1, X: "NewId", Y: "NewV"}, {Time: "After", Ev: "ins", Tag: 2, X: "NewId", Y: "NewV"},
 				{Time: "After", Ev: "ins", Tag: 3, X: "NewId", Y: "NewV", Clause: "Precedes", Ref: 1}, {Time: "Before", Ev: "ins", Tag: 4, X: "NewId", Y: "NewV"},
 				{Time: "Before", Ev: "ins", Tag: 5, X: "NewId", Y: "NewV"}, {Time: "Before", Ev: "ins", Tag: 6, X: "NewId", Y: "NewV", Clause: "Follows", Ref: 4}},
 				H: []Stmt{{K: "ins", Rows: [][2]int64{{1, 1}}}}},
 			// known finding: tr3 PRECEDES tr2 fires after tr2 when tr2 FOLLOWS tr1
-			{NoModel: true, Trigs: []Trig{{Time: "After", Ev: "ins", Tag: 1, X: "NewId", Y: "NewV"}, {Time: "After", Ev: "ins", Tag: 2, X: "NewId", Y: "NewV", Clause: "Follows", Ref: 1},
+			{Trigs: []Trig{{Time: "After", Ev: "ins", Tag: 1, X: "NewId", Y: "NewV"}, {Time: "After", Ev: "ins", Tag: 2, X: "NewId", Y: "NewV", Clause: "Follows", Ref: 1},
 				{Time: "After", Ev: "ins", Tag: 3, X: "NewId", Y: "NewV", Clause: "Precedes", Ref: 2}},
+				H: []Stmt{{K: "ins", Rows: [][2]int64{{1, 1}, {2, 2}}}}},
+			// known finding: every clause names an earlier trigger of its class, yet tr3 fires twice and tr4 never (2,3,1,3,5)
+			{Trigs: []Trig{{Time: "Before", Ev: "ins", Tag: 1, X: "NewId", Y: "NewV"}, {Time: "Before", Ev: "ins", Tag: 2, X: "NewId", Y: "NewV", Clause: "Precedes", Ref: 1},
+				{Time: "Before", Ev: "ins", Tag: 3, X: "NewId", Y: "NewV", Clause: "Precedes", Ref: 1}, {Time: "Before", Ev: "ins", Tag: 4, X: "NewId", Y: "NewV"},
+				{Time: "Before", Ev: "ins", Tag: 5, X: "NewId", Y: "NewV", Clause: "Precedes", Ref: 4}},
 				H: []Stmt{{K: "ins", Rows: [][2]int64{{1, 1}, {2, 2}}}}},
 			// update / delete triggers, chained SET NEW.v
 			{Trigs: []Trig{{Time: "Before", Ev: "ins", Tag: 1, X: "NewId", Y: "NewV", Set: "add", C: 10}, {Time: "Before", Ev: "ins", Tag: 2, X: "NewId", Y: "NewV", Set: "mul", C: 2},
@@ -518,10 +563,18 @@ func main() {
 			H: []Stmt{{K: "ins", Rows: [][2]int64{{5, 5}}}, {K: "upd", C: 2}}})
 		// typed NEW values: 1.6 into INT -> 2, '3.14159' into DECIMAL(5,2) -> 3.14
 		runTyped(c, typedCase{Typed: true, Before: true, Rows: [][][3]string{{{"1", "1.6", "'3.14159'"}, {"2", "'7'", "1.005"}}, {{"3", "2.4", "2"}, {"4", "'2.5'", "'2.5'"}}}})
-		for i := len(corpus) + 2; i < c.N; i++ {
+		for _, sc := range scriptCorpus {
+			runScript(c, sc)
+		}
+		for _, rc := range richCorpus {
+			runRich(c, rc)
+		}
+		for i := len(corpus) + 2 + len(scriptCorpus) + len(richCorpus); i < c.N; i++ {
 			switch {
-			case i%6 == 0:
+			case i%12 == 0:
 				runTyped(c, genTyped(c.R.Fork()))
+			case i%3 == 2:
+				runRich(c, genRich(c.R.Fork()))
 			case i%4 == 1:
 				cs := gen(c.R.Fork())
 				cs.Pre = true
